@@ -160,3 +160,131 @@ theorem spec_gcd_eq (a b : Nat) (ha : a < W) (hb : b < W) : spec_gcd a b = Nat.g
   · subst h; simpa using hb
   · exact lt_of_le_of_lt (Nat.gcd_le_left b h) ha
 '''
+
+# ---------------------------------------------------------------------------------------------------------------- is_perfect_square
+p_ = V('p')
+sq_small = Lemma('sq_small', ['n'], n < K(2), PApp('issquare', n),
+                 proof=r'''  unfold specp_issquare
+  rcases Nat.eq_zero_or_pos n with h | h
+  · exact ⟨0, by omega⟩
+  · exact ⟨1, by omega⟩''', doc='0 and 1 are perfect squares')
+sq_init = Lemma('sq_init', ['n'], K(2) <= n, And(K(1) <= udiv(n, 2), App('isqrt', n) <= udiv(n, 2)),
+                proof=r'''  refine ⟨by omega, ?_⟩
+  rw [spec_isqrt_eq _ hW_n]
+  exact sqrt_le_half n hyp''', doc='for n >= 2 the start value n/2 is at least 1 and at least floor(sqrt n)')
+_q = udiv(n, p_); _c = udiv(p_ + _q, 2); _hit = And(eq(udiv(n, _c), _c), eq(urem(n, _c), 0))
+sq_step = Lemma('sq_step', ['n', 'p'], And(K(2) <= n, K(1) <= p_, App('isqrt', n) <= p_, p_ <= udiv(n, 2)),
+                And(_q <= K(MAX) - p_, K(1) <= _c, App('isqrt', n) <= _c,
+                    Imp(_hit, PApp('issquare', n)),
+                    Imp(And(p_ <= _c, Not(_hit)), Not(PApp('issquare', n)))),
+                proof=r'''  obtain ⟨hn, hp, hs, hph⟩ := hyp
+  rw [spec_isqrt_eq _ hW_n] at hs
+  rw [spec_isqrt_eq _ hW_n]
+  have hWv : W = 18446744073709551616 := rfl
+  have hq : n / p ≤ n := Nat.div_le_self n p
+  have hsum : p + n / p < W := by
+    rcases Nat.lt_or_ge p 2 with h | h
+    · have hp1 : p = 1 := by omega
+      subst hp1
+      have : Nat.sqrt n < 2 := by omega
+      have : n < 2 * 2 := Nat.sqrt_lt.mp this
+      omega
+    · have : n / p ≤ n / 2 := Nat.div_le_div_left h (by norm_num)
+      omega
+  have e1 : (p + n / p) % W = p + n / p := Nat.mod_eq_of_lt hsum
+  have e2 : (18446744073709551615 + W - p) % W = 18446744073709551615 - p := sub_wrap _ _ (by omega) (by omega)
+  simp only [e1, e2]
+  have hc1 : 1 ≤ (p + n / p) / 2 := by
+    rcases Nat.lt_or_ge p 2 with h | h
+    · have hp1 : p = 1 := by omega
+      subst hp1
+      simp only [Nat.div_one]
+      omega
+    · have := Nat.zero_le (n / p)
+      omega
+  refine ⟨by omega, hc1, newton_ge n p hp, ?_, ?_⟩
+  · rintro ⟨h1, h2⟩
+    exact newton_sq_true n _ h1 h2
+  · rintro ⟨hcp, hne⟩
+    exact newton_sq_false n p hn hp hs hcp hne''',
+                doc='Newton step for floor(sqrt n): with prev >= max(1, floor sqrt n), prev <= n/2 and curr = (prev + n/prev)/2: the sum does not wrap, curr >= max(1, floor sqrt n); '
+                    'if n/curr == curr and n%curr == 0 then n is a perfect square; if curr >= prev and that test fails then n is not a perfect square')
+SQUARE = [sq_small, sq_init, sq_step]
+SQUARE_PRELUDE = r'''
+theorem sub_wrap (x y : Nat) (hy : y ≤ x) (hx : x < W) : (x + W - y) % W = x - y := by
+  have : x + W - y = (x - y) + W := by omega
+  rw [this, Nat.add_mod_right]
+  exact Nat.mod_eq_of_lt (by omega)
+
+theorem spec_isqrt_eq (n : Nat) (hn : n < W) : spec_isqrt n = Nat.sqrt n := by
+  unfold spec_isqrt; exact Nat.mod_eq_of_lt (lt_of_le_of_lt (Nat.sqrt_le_self n) hn)
+''' + open(__import__("os").path.join(__import__("os").path.dirname(__file__), "..", "..", "lemmas", "newton_sqrt.lean")).read()
+
+# ---------------------------------------------------------------------------------------------------------------- multiplicity
+f_, m_, n0_ = V('f'), V('m'), V('n0')
+mu_init = Lemma('mu_init', ['f', 'n'], TRUE, And(PApp('powfits', f_, 0), Not(umulovf(App('pow', f_, 0), n)), eq(umul(App('pow', f_, 0), n), n)),
+                proof=r'''  have e : spec_pow f 0 = 1 := by unfold spec_pow; simp [W]
+  rw [e, Nat.one_mul]
+  exact ⟨by unfold specp_powfits; simp [W], by omega, Nat.mod_eq_of_lt hW_n⟩''', doc='f^0 * n = n')
+_pm = App('pow', f_, m_); _n1 = udiv(n, f_); _pm1 = App('pow', f_, m_ + 1)
+mu_step = Lemma('mu_step', ['f', 'm', 'n', 'n0'],
+                And(K(1) < f_, K(0) < n, PApp('powfits', f_, m_), Not(umulovf(_pm, n)), eq(umul(_pm, n), n0_), eq(urem(n, f_), 0)),
+                And(m_ < K(64), K(0) < _n1, _n1 < n, PApp('powfits', f_, m_ + 1), Not(umulovf(_pm1, _n1)), eq(umul(_pm1, _n1), n0_)),
+                proof=r'''  obtain ⟨hf, hn, hfit, hno, hprod, hdiv⟩ := hyp
+  have hWv : W = 2 ^ 64 := by norm_num [W]
+  have hle : f ^ m ≤ f ^ m * n := Nat.le_mul_of_pos_right _ hn
+  unfold specp_powfits at hfit
+  have hp : spec_pow f m = f ^ m := by unfold spec_pow; exact Nat.mod_eq_of_lt hfit
+  rw [hp] at hno hprod
+  have hfm : f ^ m * n < W := by omega
+  rw [Nat.mod_eq_of_lt hfm] at hprod
+  have hm : m < 64 := by
+    by_contra hc
+    have h64 : 64 ≤ m := by omega
+    have : 2 ^ 64 ≤ f ^ m := calc 2 ^ 64 ≤ 2 ^ m := Nat.pow_le_pow_right (by norm_num) h64
+      _ ≤ f ^ m := Nat.pow_le_pow_left (by omega) m
+    omega
+  have hnf : f * (n / f) = n := Nat.mul_div_cancel' (Nat.dvd_of_mod_eq_zero hdiv)
+  have hq0 : 0 < n / f := by
+    rcases Nat.eq_zero_or_pos (n / f) with h | h
+    · rw [h] at hnf; omega
+    · exact h
+  have hqn : n / f < n := Nat.div_lt_self hn hf
+  have e1 : (m + 1) % W = m + 1 := Nat.mod_eq_of_lt (by omega)
+  have hkey : f ^ (m + 1) * (n / f) = f ^ m * n := by
+    rw [pow_succ, Nat.mul_assoc, hnf]
+  have hfit1 : f ^ (m + 1) < W := by
+    have : f ^ (m + 1) ≤ f ^ (m + 1) * (n / f) := Nat.le_mul_of_pos_right _ hq0
+    omega
+  have hp1 : spec_pow f (m + 1) = f ^ (m + 1) := by
+    unfold spec_pow
+    exact Nat.mod_eq_of_lt hfit1
+  simp only [e1, hp1]
+  refine ⟨hm, hq0, hqn, by unfold specp_powfits; exact hfit1, by omega, ?_⟩
+  rw [hkey, Nat.mod_eq_of_lt hfm]; exact hprod''',
+                doc='multiplicity loop step: if f^m < 2^64, f^m * n = n0 without wrap and f divides n, then m < 64, 0 < n/f < n and f^(m+1) * (n/f) = n0 without wrap')
+MULT = [mu_init, mu_step]
+g_facts = Lemma('g_facts', ['a', 'b'], TRUE,
+                And(eq(App('gcd', a, 1), 1), eq(App('gcd', 1, a), 1), eq(App('gcd', a, a), a), eq(App('gcd', 0, a), a), eq(App('gcd', a, b), App('gcd', b, a)),
+                    Imp(ne(b, 0), And(K(1) <= App('gcd', a, b), App('gcd', a, b) <= b))),
+                proof=r'''  have h1 : (1 : Nat) < W := by simp [W]
+  have h0 : (0 : Nat) < W := by simp [W]
+  rw [spec_gcd_eq _ _ hW_a h1, spec_gcd_eq _ _ h1 hW_a, spec_gcd_eq _ _ hW_a hW_a, spec_gcd_eq _ _ h0 hW_a, spec_gcd_eq _ _ hW_a hW_b, spec_gcd_eq _ _ hW_b hW_a]
+  refine ⟨Nat.gcd_one_right a, Nat.gcd_one_left a, Nat.gcd_self a, Nat.gcd_zero_left a, Nat.gcd_comm a b, ?_⟩
+  intro hb
+  have hb0 : 0 < b := Nat.pos_of_ne_zero hb
+  exact ⟨Nat.gcd_pos_of_pos_right a hb0, Nat.gcd_le_right a hb0⟩''',
+                doc='elementary gcd facts (not needed by the present code; they keep the proof from failing on harmless shortcuts such as an early return for b == 1)')
+GCD.append(g_facts)
+mm_facts = Lemma('mm_facts', ['a', 'b', 'n'], ne(n, 0),
+                 And(App('mulmod', a, b, n) < n, eq(App('mulmod', a, b, n), App('mulmod', b, a, n)), eq(App('mulmod', a, 0, n), 0), eq(App('mulmod', 0, a, n), 0),
+                     eq(App('mulmod', a, 1, n), urem(a, n)), eq(App('mulmod', 1, a, n), urem(a, n)),
+                     eq(App('mulmod', urem(a, n), b, n), App('mulmod', a, b, n)), eq(App('mulmod', a, urem(b, n), n), App('mulmod', a, b, n))),
+                 proof=r'''  have hn0 : 0 < n := Nat.pos_of_ne_zero hyp
+  simp only [spec_mulmod_eq _ _ _ hn0 hW_n]
+  refine ⟨Nat.mod_lt _ hn0, by rw [Nat.mul_comm], by simp, by simp, by simp, by simp, ?_, ?_⟩
+  · exact (Nat.mod_mul_mod a b n)
+  · exact (Nat.mul_mod_mod a b n)''',
+                 doc='elementary facts about a*b mod n (symmetry, zero, one, reduced operands): keep the proofs from failing on harmless shortcuts')
+MULMOD.append(mm_facts)
+POWMOD.append(mm_facts)
